@@ -31,8 +31,11 @@ def check(run):
                    3000 if quick else 60000)
     recs2 = ic.emit(run, 'Inject emission (exhaustive, small budgets)', 'Inject_emit_small.cfg', 0, 0,
                     1500 if quick else 20000, seed_off=5, bfs=True)
+    # rejected configurations with several missing names in one phase (the error must still be a NameError)
+    recs3 = ic.emit(run, 'Inject emission (exhaustive, several names missing in one phase)', 'Inject_emit_unres.cfg', 0, 0,
+                    1200 if quick else 20000, seed_off=6, bfs=True)
     opts = {'mode': 'C01', 'kwonly': True, 'posonly': False, 'carriers': True}
-    res = ic.replay_records(run, recs + recs2, opts, [0, 1] if quick else [0, 1, 2, 3], run.seed, 'c01')
+    res = ic.replay_records(run, recs + recs2 + recs3, opts, [0, 1] if quick else [0, 1, 2, 3], run.seed, 'c01')
 
     def nontrivial(rec):
         return bool(rec['P']) and bool(rec['V'] or rec['url'] or rec['res'] or rec['rres'])
